@@ -22,7 +22,7 @@ partial def parseRStmt : Sexp → Option RStmt
   | _ => none
 
 /-- iteration bound used by the drivers for `DO WHILE` (no generated loop reaches it) -/
-def driverFuel : Nat := 100000
+def driverFuel : Nat := 2000
 
 def parseItem : Sexp → Option Item
   | .list [.atom "s", p] => (parseRStmt p).map Item.stmt
